@@ -1,20 +1,78 @@
-(* C15 — the second-generation front end is total and memory-safe on any bytes
-   (placeholder until Model/DeltaNodes.v is installed; the lexer part is below). *)
-From PV Require Import Base.Common Base.Tok Model.LexDelta.
-From PV Require Proofs.LexDeltaProofs.
+(* C15 — the second-generation front end is total and memory-safe on any bytes.
+   Proved part: the buffer arithmetic.  Lexer (Model/LexDelta.v): totality, the
+   token buffer is never overrun, no arithmetic overflow; parser (Model/DeltaNodes.v,
+   the node accounting of every production of src/delta/parser.rs): on every
+   token array the lexer can produce the parser returns normally, never reaches
+   one of its panic sites, keeps its cursor inside the array, and pushes at most
+   max_parse_node_context + node_capacity_factor * tokens nodes - the capacity
+   ParseTree::empty reserves, regenerated from /repo on every run (Gen/Limits.v). *)
+From Coq Require Import List NArith ZArith Lia.
+From PV Require Import Base.Common Base.Tok Gen.Limits.
+From PV Require Model.LexDelta Proofs.LexDeltaProofs Model.DeltaNodes Proofs.DeltaNodesProofs.
+Module L := LexDelta.
 Module D := LexDeltaProofs.
+Module P := DeltaNodes.
+Module Q := DeltaNodesProofs.
 
-Theorem C15_lexer_total : forall src, lex_delta src <> [out_of_fuel_tok].
+(* ---- lexer ---- *)
+Theorem C15_lexer_total : forall src, L.lex_delta src <> [L.out_of_fuel_tok].
 Proof. exact D.total. Qed.
 
 Theorem C15_token_push_in_bounds : forall src,
-  lex_delta src = [err_tok0 E103] \/
-  (D.lenT (lex_delta src) + num_end_tokens src <= token_capacity (lenN src))%N.
+  L.lex_delta src = [L.err_tok0 E103] \/
+  (D.lenT (L.lex_delta src) + L.num_end_tokens src <= L.token_capacity (L.lenN src))%N.
 Proof. exact D.token_push_in_bounds. Qed.
 
-Theorem C15_no_overflow_panic : forall src, would_overflow_panic src = false.
+Theorem C15_no_overflow_panic : forall src, L.would_overflow_panic src = false.
 Proof. exact D.would_overflow_panic_never. Qed.
+
+(* ---- parser ---- *)
+(* The node buffer reserved by the CURRENT source is never overrun. *)
+Theorem C15_nodes_within_capacity : forall ts,
+  Q.lexer_shaped ts ->
+  (P.o_nodes (P.parse_full ts)
+   <= P.node_capacity (Z.to_N node_capacity_factor) (Z.to_N max_parse_node_context) (N.of_nat (length ts)))%N.
+Proof.
+  intros ts H. pose proof (Q.nodes_within_capacity ts H) as B. unfold P.node_capacity in *.
+  assert (F : (4 <= Z.to_N node_capacity_factor)%N) by (apply N.leb_le; vm_compute; reflexivity).
+  assert (K : (5 <= Z.to_N max_parse_node_context)%N) by (apply N.leb_le; vm_compute; reflexivity).
+  nia.
+Qed.
+
+(* The parser returns normally: no panic site, no fuel exhaustion (every loop
+   consumes a token), the declaration loop ends on EndOfSource. *)
+Theorem C15_parse_never_panics : forall ts, Q.lexer_shaped ts -> P.o_status (P.parse_full ts) = P.Ok.
+Proof. exact Q.parse_never_panics. Qed.
+
+Theorem C15_cursor_in_bounds : forall ts,
+  Q.lexer_shaped ts ->
+  (P.o_final (P.parse_full ts) < length ts)%nat
+  /\ Forall (fun d => (P.d_start d < P.d_end d)%nat /\ (P.d_end d < length ts)%nat) (P.o_log (P.parse_full ts)).
+Proof. exact Q.cursor_in_bounds. Qed.
+
+Theorem C15_declarations_fit : forall ts,
+  Q.lexer_shaped ts ->
+  (P.o_decls (P.parse_full ts) <= N.of_nat (P.num_possible_declarations ts))%N.
+Proof. exact Q.declarations_fit. Qed.
+
+(* The pinned commit reserved 2 nodes per token: refuted (defect D7, repaired);
+   3 nodes per token do not suffice either, whatever the constant. *)
+Theorem C15_pinned_capacity_refuted :
+  exists ts, Q.lexer_shaped ts /\
+    (P.o_nodes (P.parse_full ts) > P.node_capacity 2 5 (N.of_nat (length ts)))%N.
+Proof. exact Q.node_bound_pinned_refuted. Qed.
+
+Theorem C15_factor_3_refuted :
+  exists ts, Q.lexer_shaped ts /\
+    (P.o_nodes (P.parse_full ts) > P.node_capacity 3 5 (N.of_nat (length ts)))%N.
+Proof. exact Q.node_bound_3_refuted. Qed.
 
 Print Assumptions C15_lexer_total.
 Print Assumptions C15_token_push_in_bounds.
 Print Assumptions C15_no_overflow_panic.
+Print Assumptions C15_nodes_within_capacity.
+Print Assumptions C15_parse_never_panics.
+Print Assumptions C15_cursor_in_bounds.
+Print Assumptions C15_declarations_fit.
+Print Assumptions C15_pinned_capacity_refuted.
+Print Assumptions C15_factor_3_refuted.
